@@ -1,3 +1,3 @@
 From Coq Require Import List NArith ZArith ExtrOcamlBasic.
-From WV Require Import Lib.PyBytes Gen.GenTables Model.Task Spec.ClientParse.
-Extraction "model.ml" run_task run_task_wc handler_thread py_cap py_lower py_int wire parse_one parse_stream decode_chunked N.add N.mul Z.of_N Z.to_N Z.opp.
+From WV Require Import Lib.PyBytes Gen.GenTables Model.Task Spec.ClientParse Model.HttpDate.
+Extraction "model.ml" build_http_date weekdayname monthname run_task run_task_wc handler_thread py_cap py_lower py_int wire parse_one parse_stream decode_chunked N.add N.mul Z.of_N Z.to_N Z.opp.
